@@ -40,6 +40,7 @@ var TamperKinds = []string{
 	"wildcard-replay-forged-nsec", // same, with a forged unsigned NSEC owned outside the zone that spans the name
 	"dname-cname-prefix",          // DNAME answer: the unsigned synthesised CNAME's leading labels altered (suffix and length kept)
 	"forge-self-signer",           // answer data altered; its RRSIGs name the record's own owner as signer (a non-cut name inside the zone)
+	"rogue-key",                   // the zone's DNSKEY set gains the attacker's key and is re-signed by that key alone; data is altered and signed by it, all under the zone's own name
 	"empty-reply",                 // every answer and authority record removed: NOERROR with nothing in it
 	"flip-last-rrset",             // only the RRset that sorts last (owner, type) is altered; every other RRset of the response stays genuine
 	"sig-corrupt-last",            // only the signatures covering the RRset that sorts last are corrupted
@@ -237,6 +238,66 @@ func Apply(kind string, a *Answer, attacker, other *Zone) (*dns.Msg, bool) {
 				}
 			}
 			m.Extra = append(resign(ex), opt)
+		}
+	case "rogue-key":
+		// The chain of trust runs DS -> a key of the DNSKEY set that the DS matches -> that
+		// key's signature over the set -> the other keys. A key that is merely present in the
+		// set and signs the set itself is anchored to nothing.
+		if attacker == nil || !attacker.Signed || z == nil || !z.Signed || len(m.Question) != 1 || attacker.ZSK == nil {
+			return nil, false
+		}
+		rogue := dns.Copy(attacker.ZSK.DNSKEY).(*dns.DNSKEY)
+		rogue.Hdr.Name = z.Name
+		rk := &Key{DNSKEY: rogue, Signer: attacker.ZSK.Signer, Tag: rogue.KeyTag(), Alg: rogue.Algorithm, Idx: attacker.ZSK.Idx}
+		if m.Question[0].Qtype == dns.TypeDNSKEY && dns.CanonicalName(m.Question[0].Name) == z.Name {
+			var keys, rest []dns.RR
+			for _, r := range m.Answer {
+				switch {
+				case r.Header().Rrtype == dns.TypeDNSKEY:
+					keys = append(keys, r)
+				case isSig(r) && r.(*dns.RRSIG).TypeCovered == dns.TypeDNSKEY:
+					// the genuine signatures go: they no longer cover the enlarged set
+				default:
+					rest = append(rest, r)
+				}
+			}
+			if len(keys) == 0 {
+				return nil, false
+			}
+			rogue.Hdr.Ttl = keys[0].Header().Ttl
+			keys = append(keys, rogue)
+			m.Answer = append(append(rest, keys...), attacker.SignRRset(keys, rk, z.Name, -1))
+			changed = true
+			break
+		}
+		if a.Kind != "answer" {
+			return nil, false
+		}
+		forged, ok := Apply("flip-rdata", a, attacker, other)
+		if !ok {
+			return nil, false
+		}
+		m = forged
+		{
+			groups := map[string][]dns.RR{}
+			var order []string
+			for _, r := range m.Answer {
+				if isSig(r) {
+					continue
+				}
+				k := strings.ToLower(r.Header().Name) + "/" + dns.TypeToString[r.Header().Rrtype]
+				if _, ok := groups[k]; !ok {
+					order = append(order, k)
+				}
+				groups[k] = append(groups[k], r)
+			}
+			var out []dns.RR
+			for _, k := range order {
+				out = append(out, groups[k]...)
+				out = append(out, attacker.SignRRset(groups[k], rk, z.Name, -1))
+			}
+			m.Answer = out
+			changed = true
 		}
 	case "empty-reply":
 		if len(m.Answer)+len(m.Ns) == 0 {
